@@ -28,7 +28,7 @@ use idlc_ast::Ast;
 pub use idlc_ast::Ident;
 use idlc_ast_passes::idl_store::IDLStore;
 
-use std::collections::{HashMap, VecDeque};
+use std::collections::VecDeque;
 use std::path::{Path, PathBuf};
 use std::rc::Rc;
 
@@ -187,26 +187,22 @@ impl StructInner {
     }
 
     pub fn objects(&self) -> Vec<(Vec<&Ident>, Option<&str>)> {
-        let mut queue = VecDeque::new();
-        let mut parents = HashMap::new();
+        // Breadth-first over nested structs; every queue entry carries the path of field
+        // names leading to it, so two fields of the same struct type keep distinct paths.
+        let mut queue: VecDeque<(&Self, Vec<&Ident>)> = VecDeque::new();
         let mut objects = Vec::new();
-        queue.push_back(self);
+        queue.push_back((self, Vec::new()));
 
-        while let Some(node) = queue.pop_front() {
+        while let Some((node, prefix)) = queue.pop_front() {
             for field in &node.fields {
                 let (ty, _) = &field.val;
                 if let Type::Struct(s) = ty {
-                    parents.insert(s.as_ref(), (node, Some(&field.ident)));
-                    queue.push_back(s.as_ref());
+                    let mut path = prefix.clone();
+                    path.push(&field.ident);
+                    queue.push_back((s.as_ref(), path));
                 } else if let Type::Interface(interface) = ty {
-                    // Reconstruct path information.
-                    let mut path = vec![&field.ident];
-                    let mut current = node;
-                    while let Some((parent, Some(parent_ident))) = parents.get(current) {
-                        path.push(*parent_ident);
-                        current = parent;
-                    }
-                    path.reverse();
+                    let mut path = prefix.clone();
+                    path.push(&field.ident);
                     objects.push((path, interface.as_deref()));
                 }
             }
